@@ -8,6 +8,7 @@
    it is refuted for today's code by the recorded finding D9. *)
 From Coq Require Import List ZArith Bool Relations.
 Import ListNotations.
+Require Import Gram.Model.ModelB.
 Require Import Gram.Model.Term Gram.Model.DeBruijn Gram.Model.Eval Gram.Spec.Typing Gram.Oracle.Infer Gram.Proofs.InferSound.
 
 Theorem C03_whnf_sound : forall fuel G t u, whnf fuel G t = Some u -> clos_refl_trans term (red G) t u.
@@ -42,3 +43,21 @@ Theorem C03_examples :
 Proof. exact validator_examples. Qed.
 Check C03_examples : _ /\ _.
 Print Assumptions C03_examples.
+
+(* The universal statement - every program the implementation accepts is well typed - is refuted for today's code
+   by the recorded finding D9, and the refutation is reproduced inside Coq on Model B (the store-passing mirror of
+   type_check that the MB stream compares with the implementation): the witness is accepted without a diagnostic
+   at type int, and its elaborated term evaluates to the stuck term `true + 1`. *)
+Definition D9_witness : term :=      (* ((f : int -> _) => f 1 + 1) ((x : int) => true) *)
+  TApp (TLam false (TPi false TInt (THole 0 1)) (TBin OSum (TApp (TVar 0) (TLit 1)) (TLit 1))) (TLam false TInt TTrue).
+Definition D9_check : bool :=
+  match tcB 60 [None] [] [] D9_witness with
+  | Some r => match b_errs r, zonkB 40 (b_st r) (b_ty r), evaluate 50 (zonkB 40 (b_st r) (b_elab r)) with
+              | [], TInt, Some (TBin OSum TTrue (TLit 1)) => true | _, _, _ => false end
+  | None => false end.
+Theorem C03_soundness_refuted_D9 :
+  D9_check = true /\ is_value (TBin OSum TTrue (TLit 1)) = false /\ step (TBin OSum TTrue (TLit 1)) = None.
+Proof. vm_compute. repeat split; reflexivity. Qed.
+Check C03_soundness_refuted_D9 :
+  D9_check = true /\ is_value (TBin OSum TTrue (TLit 1)) = false /\ step (TBin OSum TTrue (TLit 1)) = None.
+Print Assumptions C03_soundness_refuted_D9.
